@@ -3,6 +3,7 @@ package harness
 import (
 	"encoding/binary"
 	"fmt"
+	"github.com/consensys/gnark-crypto/ecc"
 	"reflect"
 	"runtime"
 	"runtime/debug"
@@ -263,6 +264,22 @@ func c08Run(w *Worker, tape *simrt.Tape) *Outcome {
 			if verifyDecoded(cp, pub, fdesc, changed) {
 				return o
 			}
+			// ... and together with a public witness whose length is off by the same amount in the
+			// other direction (two prover-supplied counts whose errors cancel), or by a little
+			nPub := (len(art.pubBytes) - 12) / max(1, frSize(curve))
+			for _, k := range []int{nPub + (n - fv.Len()), nPub + 1, nPub - 1, nPub + 2} {
+				if k < 0 || k == nPub || k > nPub+64 {
+					continue
+				}
+				pw := witnessOfLen(curve, art.pubBytes, k)
+				if pw == nil {
+					continue
+				}
+				o.fault("struct_length_edit+witness_length")
+				if verifyDecoded(cp, pw, fmt.Sprintf("%s and a public witness of %d instead of %d elements", fdesc, k, nPub), true) {
+					return o
+				}
+			}
 			// the edited proof must also survive a serialisation round trip without a panic
 			var encErr error
 			if pan := guard(func() { _, encErr = encode(cp, raw == 1) }); pan != "" {
@@ -379,6 +396,31 @@ func c08Run(w *Worker, tape *simrt.Tape) *Outcome {
 		o.Sample = map[string]any{"case": o.Desc, "faults": nfaults, "proof_bytes": len(art.enc[0].Buf), "raw_proof_bytes": len(art.enc[1].Buf), "elements": len(art.enc[0].Log)}
 	}
 	return o
+}
+
+func frSize(curve ecc.ID) int { return (curve.ScalarField().BitLen() + 7) / 8 }
+
+// witnessOfLen builds a well-formed public witness of k elements from the elements of a genuine one.
+func witnessOfLen(curve ecc.ID, genuine []byte, k int) witness.Witness {
+	sz := frSize(curve)
+	n := (len(genuine) - 12) / sz
+	b := make([]byte, 12, 12+k*sz)
+	binary.BigEndian.PutUint32(b[0:], uint32(k))
+	binary.BigEndian.PutUint32(b[4:], 0)
+	binary.BigEndian.PutUint32(b[8:], uint32(k))
+	for i := 0; i < k; i++ {
+		if n == 0 {
+			b = append(b, make([]byte, sz)...)
+		} else {
+			j := i % n
+			b = append(b, genuine[12+j*sz:12+(j+1)*sz]...)
+		}
+	}
+	w, err, pan := readWitness(curve, b, false)
+	if err != nil || pan != "" {
+		return nil
+	}
+	return w
 }
 
 func releaseMemory() {
